@@ -581,7 +581,11 @@ def sort_items(interp, items: list, key: Any, reverse: Any, what: str) -> list:
         if interp.choose(2, f"{what}:order-of-symbolic-keys") == 0:
             return list(items)
         return list(items)[::-1]
-    raise interp.unsupported(f"{what} with keys of mixed abstraction {keys!r}")
+    # keys of mixed abstraction (constants next to symbolic strings, tuples of those): the resulting order depends on
+    # the data; the source order is kept and the reordering is recorded for the rules that care about order
+    interp.emit("reorder", what=what)
+    interp.emit("assumed", what=f"{what}: order of partly symbolic keys taken to be the source order")
+    return list(items)[::-1] if rev else list(items)
 
 
 def _b_sorted(interp, args, kwargs):
@@ -1300,6 +1304,12 @@ def _bytesio(interp, args, kwargs):
         interp.emit("materialise", what="io.BytesIO(inp.read())", source=repr(src))
         frames = interp.drain(src.attrs["frames"])
         return ExtObj("io.stream", {"frames": AIter(iter(frames), "frames"), "header": src.attrs["header"], "seekable": True, "buffered": True, "pos": 0, "label": "bytesio", "reads": []})
+    if isinstance(data, ExtObj) and data.kind == "bytes:chunk" and isinstance(data.attrs.get("stream"), ExtObj):
+        # everything pyjelly itself read so far from the input, re-wrapped in memory: the abstract frames are those
+        # of the original source (whether all of them were really read is judged from the read events)
+        src = data.attrs["stream"]
+        interp.emit("consume_chunks", stream=src, what="io.BytesIO(bytes read from the input)")
+        return ExtObj("io.stream", {"frames": src.attrs["frames"], "header": (src.attrs["header"] or b"")[src.attrs.get("start", 0) :], "seekable": True, "buffered": True, "pos": 0, "start": 0, "label": "bytesio-of-chunks", "reads": [], "peeked_from": src})
     if isinstance(data, bytes) or (isinstance(data, AList) and data.kind == "bytearray"):
         import io as _io
 
@@ -1992,6 +2002,17 @@ def call_method(interp, em: ExtMethod, args: list, kwargs: dict) -> Any:
         raise interp.unsupported(f"ChainMap method {em.name}")
     if k == "set":
         return _set_method(interp, em.recv, em.name, args, kwargs)
+    if k == "bytes" and em.name == "join" and args:
+        parts = interp.drain(args[0])
+        if any(isinstance(p, ExtObj) and p.kind in ("bytes:chunk", "bytes:header") for p in parts):
+            if em.recv != b"":
+                raise interp.unsupported("join of input chunks with a separator")
+            acc: Any = b""
+            for p in parts:
+                if isinstance(p, ExtObj) and p.kind == "bytes:header":
+                    p = ExtObj("bytes:chunk", {"stream": p.attrs.get("stream"), "n": len(p.attrs["data"]), "exact": p.attrs.get("exact"), "via": p.attrs.get("via"), "data": None})
+                acc = p if acc == b"" else concat_chunks(acc, p)
+            return acc
     if k in ("bytes", "tuple", "number"):
         from . import models_std
 
@@ -2553,6 +2574,11 @@ def _io_method(interp, o: ExtObj, name: str, args: list, kwargs: dict) -> Any:
                 root.attrs.pop("empty_frame_body", None)
                 if not _frames_remaining(interp, root):
                     return b""
+                if isinstance(n, int) and n >= 4096:
+                    # bulk reads ("read everything in chunks of n"): the input ends after two chunks
+                    root.attrs["bulk_reads"] = root.attrs.get("bulk_reads", 0) + 1
+                    if root.attrs["bulk_reads"] > 2:
+                        return b""
                 if n == 1:
                     # one length-prefix byte (frames of the model are shorter than 128 bytes): 0 for a frame without
                     # rows and metadata, which is thereby consumed entirely
@@ -2603,7 +2629,17 @@ def _io_method(interp, o: ExtObj, name: str, args: list, kwargs: dict) -> Any:
             return None
         raise interp.unsupported(f"input stream method {name}")
     if o.kind == "bytes:header":
-        raise interp.unsupported(f"bytes method {name}")
+        # concrete header bytes with provenance: pure bytes methods are evaluated on the data
+        from . import models_std
+
+        r = models_std.concrete_method(interp, o.attrs["data"], name, [a.attrs["data"] if isinstance(a, ExtObj) and a.kind == "bytes:header" else a for a in args], kwargs)
+        if r is models_std.MISSING:
+            raise interp.unsupported(f"bytes method {name} on header bytes with {args!r}")
+        if isinstance(r, bytes):
+            attrs = dict(o.attrs)
+            attrs["data"] = r
+            return ExtObj("bytes:header", attrs)
+        return r
     raise interp.unsupported(f"io method {o.kind}.{name}")
 
 
